@@ -27,7 +27,11 @@ Go being modelled (after the C18 fix, see `parsePinned` for the pinned tree):
   templateNode.execute = text/template Execute into a buffer; the rendered TEXT is the result
                          (a string – it is never re-parsed as JSON/YAML)
   sliceNode.execute    = MakeSlice(len 0) ; Append(child results in order), first error wins
-                         (a nil slice therefore comes back as an empty non-nil slice)
+                         (a nil slice therefore comes back as an empty non-nil slice);
+                         an ARRAY type is rebuilt element by element (reflect.New(typ).Elem(); Index(i).Set)
+                         [added by "fix: template walk no longer panics on arrays": MakeSlice panics on an
+                         array type, so any [N]T / uuid.UUID inside fields or env data made Build, Bind and
+                         Execute panic, templated or not]
   mapNode.execute      = MakeMap ; for key, child := range children (unspecified order):
                            SetMapIndex(key.execute, child.execute)      (later writes overwrite)
                          (a nil map comes back as an empty non-nil map)
@@ -39,6 +43,13 @@ quantified over all `Doc`s cover all enumeration orders); the second, independen
 evaluated children.  nil and empty containers are identified (`list []`, `map []`): the code
 itself maps both to the empty non-nil container.  `num` is any non-string, non-container,
 non-nil scalar (bool is kept separate only for readability); such values are opaque to the walk.
+
+Go spellings.  The walk switches on `reflect.Kind` only and rebuilds every container with the Go type it had
+(`typ` of the node), so `[]string`, `[][]string`, `[N]string`, `map[string]string`, `map[string][]string` – what a
+Go caller writes, and what `types.Unmarshal` of a stored spec yields for all-string lists and maps – are the
+same `Doc` as their `[]any` / `map[string]any` spelling: `list` / `map` with `str` leaves.  `Doc` needs no
+constructor for them; the harness runs every case in each spelling against this one model (harness/c18/typed.go)
+and additionally checks that an action-free document keeps its Go types.
 -/
 namespace Uniflow.Template
 
